@@ -46,4 +46,14 @@ JoinArr(w, pv, arr) ==
     IF arr = <<>> THEN ""
     ELSE Term(w, pv, Head(arr)) \o (IF Len(arr) > 1 THEN ";" ELSE "") \o JoinArr(w, pv, Tail(arr))
 
+\* A processor PANICS exactly when its A input evaluates to this string (user code that crashes on some valid
+\* parameter value); the panic travels up through every node that evaluates it. The caller gets no value.
+PanicTrigger == "p1:66"
+RECURSIVE Panics(_, _, _)
+Panics(w, pv, s) ==
+    /\ s \in Nodes
+    /\ \/ Term(w, pv, w[s].a) = PanicTrigger
+       \/ Panics(w, pv, w[s].a) \/ Panics(w, pv, w[s].b)
+       \/ \E i \in DOMAIN w[s].arr : Panics(w, pv, w[s].arr[i])
+
 =============================================================================
